@@ -77,6 +77,11 @@ def model_to_args(c: FN, model):
             if not isinstance(v, str):
                 return None
             args[p] = v
+        elif kind == "obj":
+            v = model.get(p, {"ctor": "PNone", "args": []})
+            if not isinstance(v, dict) or v.get("ctor") in ("PMsg", "PList", "PDict", "PEnum", "POther", "PPlaceholder"):
+                return None
+            args[p] = v
         else:
             return None
     return args
@@ -205,10 +210,18 @@ class PropertyCheck:
         self.obls, self.results, self.execs = obls, results, execs
         by_fn = {c.qualname: c for k, c, ex in execs if k == "fn"}
         refuted = []
+        # functions in which a model side condition is not provable: every verdict there is only "undecided"
+        outside_model = {o.fn for o, r in zip(obls, results) if o.kind == "model" and r["result"] != "unsat"}
         for o, r in zip(obls, results):
             if r["result"] == "unsat":
                 continue
-            if r["result"] == "sat":
+            if r["result"] == "sat" and o.kind == "model":
+                # a side condition of the engine's own modelling (e.g. `|` only on disjoint bits) does not hold:
+                # the construct is outside the model -> undecided, never a violation
+                self.undecided.append({"obligation": o.name, "reason": "outside-model: side condition of a builtin/bit-operation model is not provable here"})
+            elif r["result"] == "sat" and o.fn in outside_model:
+                self.undecided.append({"obligation": o.name, "reason": "outside-model: refutation not trusted because a model side condition of this function fails"})
+            elif r["result"] == "sat":
                 refuted.append((o, r))
             else:
                 self.undecided.append({"obligation": o.name, "reason": f"{r['result']}: {r['reason']}"[:200]})
@@ -297,6 +310,11 @@ class PropertyCheck:
                     v = {"data": list(v[0]), "pos": v[1]}
             elif kind == "bytes":
                 v = list(v)
+            elif kind == "obj":
+                if isinstance(v, (bytes, bytearray)):
+                    v = {"__bytes__": list(v)}
+                elif isinstance(v, float):
+                    v = {"__float__": repr(v)}
             out[p] = v
         return out
 
@@ -306,9 +324,11 @@ class PropertyCheck:
         -> checker error (exit 3), unless the same function already has a refuted obligation."""
         self.cross = {"functions": 0, "calls": 0, "precondition_skips": 0, "samples": []}
         refuted_fns = {v["obligation"].split("/")[0] for v in self.violations}
+        undecided_fns = {u["obligation"].split("/")[0] for u in self.undecided}
+        standin_hits = {}
         jobs, owners = [], []
         for c in fns:
-            if not all(k in ("int", "bool", "bytes", "str", "stream") for k in c.types.values()):
+            if not all(k in ("int", "bool", "bytes", "str", "stream", "obj") for k in c.types.values()):
                 continue
             ss = self.samples_for(c)
             if not ss:
@@ -330,13 +350,30 @@ class PropertyCheck:
             elif r["status"] == "violated":
                 if c.qualname in refuted_fns:
                     continue
+                if c.qualname in undecided_fns:
+                    # the deductive verdict for this function is "undecided": the executable contract on the real
+                    # code is the bounded stand-in, and it found a failing input
+                    if c.qualname not in standin_hits:
+                        standin_hits[c.qualname] = (a, r)
+                    continue
                 self.errors.append(f"proved contract of {c.qualname} fails at run time on {a}: {r['failed']} "
                                    f"observed {r.get('observed')} (engine/model unsound or contract wrong)")
             else:
                 self.errors.append(f"native harness problem for {c.qualname}: {r}")
+        for q, (a, r) in standin_hits.items():
+            os.makedirs(os.path.join(VERIF, "replays", self.prop), exist_ok=True)
+            path = os.path.join("replays", self.prop, f"standin_{q.replace('.', '_')}.json")
+            with open(os.path.join(VERIF, path), "w") as fh:
+                json.dump({"property": self.prop, "obligation": f"{q}/" + ",".join(r["failed"]), "function": q,
+                           "found_by": "bounded-standin", "reproduced": True, "concrete_call": {"function": q, "args": a},
+                           "failed_clauses": r["failed"], "observed": r.get("observed"),
+                           "note": "deductive verdict undecided for this function; executable contract evaluated on the real code"},
+                          fh, indent=1, default=str)
+            self.violations.append({"obligation": f"{q}/" + ",".join(r["failed"]), "replay": path, "reproduced": True})
+            self.messages.append(f"VIOLATION property={self.prop} replay={path}")
         for c in fns:
             if c.witness is not None and c.qualname not in witnessed and c.qualname not in refuted_fns \
-                    and all(k in ("int", "bool", "bytes", "str", "stream") for k in c.types.values()):
+                    and all(k in ("int", "bool", "bytes", "str", "stream", "obj") for k in c.types.values()):
                 self.errors.append(f"vacuity: no concrete call of {c.qualname} satisfied its precondition")
 
     def run_bounded(self):
